@@ -42,9 +42,23 @@ package server
 //@ spec validLimits(req *request.CreateRequest) bool = req.BufferConfig.Period >= 0 && req.BufferConfig.Size >= 0
 //@ spec validShape(req *request.CreateRequest) bool = (len(req.CollectionInfos) == 1 && len(req.DBCollections) == 0) || (len(req.CollectionInfos) == 0 && len(req.DBCollections) == 1)
 
+// wfNames: no database, collection or mapping name of the request contains the full-name separator '.'
+// (full names "db.collection" are split again with util.GetCollectionNameFromFull, which panics otherwise)
+//@ spec wfCollNames(req *request.CreateRequest) bool = (len(req.CollectionInfos) == 1 ==> !contains(req.CollectionInfos[0].Name, ".")) && (forall d string :: d in req.DBCollections ==> !contains(d, ".") && len(req.DBCollections[d]) == 1 && !contains(req.DBCollections[d][0].Name, "."))
+//@ spec wfMappingNames(req *request.CreateRequest) bool = forall i int :: 0 <= i && i < len(req.NameMapping) ==> !contains(req.NameMapping[i].SourceDB, ".") && !contains(req.NameMapping[i].TargetDB, ".") && (forall s string :: s in req.NameMapping[i].CollectionMapping ==> !contains(s, ".") && !contains(req.NameMapping[i].CollectionMapping[s], "."))
+
 //@ func (*MetaCDC).validCreateRequest
 //@   props C19 C18
 //@   requires e != nil && e.config != nil && req != nil
+//@   ensures [collection-names-with-the-full-name-separator-are-rejected] err == nil ==> old(wfCollNames(req))
+//@   ensures [mapping-names-with-the-full-name-separator-are-rejected] err == nil ==> old(wfMappingNames(req))
+//@   loop 1 invariant preservedStruct(request.CreateRequest) && preservedStruct(model.CollectionInfo) && preservedStruct(model.NameMapping) && preservedArrays(model.CollectionInfo) && preservedArrays(model.NameMapping) && preservedMaps("string;[]model.CollectionInfo") && preservedMaps("string;string") && preservedStruct(CDCServerConfig) && preservedStruct(MilvusSourceConfig) && preservedFields(MetaCDC.config)
+//@   loop 1 invariant err == nil
+//@   loop 1 invariant forall d string :: visited(d) ==> !contains(d, ".") && len(old(req.DBCollections[d])) == 1 && !contains(old(req.DBCollections[d][0].Name), ".")
+//@   loop 2 invariant preservedStruct(request.CreateRequest) && preservedStruct(model.CollectionInfo) && preservedStruct(model.NameMapping) && preservedArrays(model.CollectionInfo) && preservedArrays(model.NameMapping) && preservedMaps("string;[]model.CollectionInfo") && preservedMaps("string;string") && preservedStruct(CDCServerConfig) && preservedStruct(MilvusSourceConfig) && preservedFields(MetaCDC.config)
+//@   loop 2 invariant forall i int :: 0 <= i && i < rangeindex + 1 && i < len(old(req.NameMapping)) ==> !contains(old(req.NameMapping[i].SourceDB), ".") && !contains(old(req.NameMapping[i].TargetDB), ".") && (forall s string :: s in old(req.NameMapping[i].CollectionMapping) ==> !contains(s, ".") && !contains(old(req.NameMapping[i].CollectionMapping[s]), "."))
+//@   loop 3 invariant preservedStruct(request.CreateRequest) && preservedStruct(model.CollectionInfo) && preservedStruct(model.NameMapping) && preservedArrays(model.CollectionInfo) && preservedArrays(model.NameMapping) && preservedMaps("string;[]model.CollectionInfo") && preservedMaps("string;string") && preservedStruct(CDCServerConfig) && preservedStruct(MilvusSourceConfig) && preservedFields(MetaCDC.config)
+//@   loop 3 invariant forall s string :: visited(s) ==> !contains(s, ".") && !contains(mapping.CollectionMapping[s], ".")
 //@   ensures [accepted-requests-name-exactly-one-well-formed-target] err == nil ==> old(validTargets(req))
 //@   ensures [accepted-requests-have-non-negative-limits] err == nil ==> old(validLimits(req))
 //@   ensures [accepted-requests-have-exactly-one-collection-specification] err == nil ==> old(validShape(req))
@@ -56,11 +70,12 @@ package server
 //@   requires e != nil && e.config != nil
 //@   ensures [exactly-one-named-collection] err == nil ==> len(infos) == 1 && old(infos[0].Name) != "" && len(old(infos[0].Name)) <= old(e.config.MaxNameLength)
 //@   ensures [wildcard-takes-no-positions] err == nil && old(infos[0].Name) == "*" ==> old(len(infos[0].Positions)) == 0
+//@   ensures [no-full-name-separator-in-the-name] err == nil ==> !contains(old(infos[0].Name), ".")
 //@   modifies nothing
 // `len(infos) > 1` inside the loop is dead after the `len(infos) != 1` check above it
 //@   unreachable return@5
 //@   loop 1 invariant preservedStruct(model.CollectionInfo) && preservedArrays(string) && (longNames == nil || freshRef2(longNames))
-//@   loop 1 invariant (rangeindex == 0 - 1 || rangeindex == 0) && len(infos) == 1 && (rangeindex == 0 - 1 ==> !emptyName && len(longNames) == 0 && preservedArrays(model.CollectionInfo) && preservedFields(CDCServerConfig.MaxNameLength) && preservedFields(MetaCDC.config)) && (rangeindex == 0 ==> emptyName == (old(infos[0].Name) == "") && (len(longNames) == 0) == (len(old(infos[0].Name)) <= old(e.config.MaxNameLength)) && (old(infos[0].Name) == "*" ==> old(len(infos[0].Positions)) == 0))
+//@   loop 1 invariant (rangeindex == 0 - 1 || rangeindex == 0) && len(infos) == 1 && (rangeindex == 0 - 1 ==> !emptyName && len(longNames) == 0 && preservedArrays(model.CollectionInfo) && preservedFields(CDCServerConfig.MaxNameLength) && preservedFields(MetaCDC.config)) && (rangeindex == 0 ==> emptyName == (old(infos[0].Name) == "") && (len(longNames) == 0) == (len(old(infos[0].Name)) <= old(e.config.MaxNameLength)) && (old(infos[0].Name) == "*" ==> old(len(infos[0].Positions)) == 0) && !contains(old(infos[0].Name), "."))
 //@   panics never
 
 // ---- C19: every request gets exactly one JSON answer with a legal code -------------------------------------
@@ -169,3 +184,32 @@ package server
 // only what is handed to the logger matters here: the task helpers are treated as unknown calls
 //@   opaque pauseTaskWithReason getTaskUniqueIDFromInfo
 //@   loop 1 invariant true
+
+// ---- C19 / C10: the duplicate-detection bookkeeping ------------------------------------------------------------
+// matchCollectionName(sample, target): does the specification `sample` ("db.coll", either part may be "*")
+// select `target`; second result: is `sample` a wildcard specification
+//@ func matchCollectionName
+//@   props C10 C19
+//@   requires [one-dot] oneDot(sampleCollection) && oneDot(targetCollection)
+//@   ensures result0 == ((fullDB(sampleCollection) == fullDB(targetCollection) || fullDB(sampleCollection) == "*") && (fullColl(sampleCollection) == fullColl(targetCollection) || fullColl(sampleCollection) == "*"))
+//@   ensures result1 == (fullDB(sampleCollection) == "*" || fullColl(sampleCollection) == "*")
+//@   modifies nothing
+//@   panics never
+
+// a rejected create leaves the four bookkeeping tables (names, excluded names, extra infos, name mappings) as they were
+//@ spec bookkeepingUntouched() bool = preservedMaps("string;[]string") && preservedMaps("string;model.ExtraInfo") && preservedMaps("string;map[string]string") && preservedMaps("string;string") && preservedArrays(string)
+//@ func (*MetaCDC).checkDuplicateCollection
+//@   props C19 C10
+//@   requires e != nil
+// every full name involved has exactly one '.', (validated requests only; the recorded names came through here)
+//@   requires forall i int :: 0 <= i && i < len(newCollectionNames) ==> oneDot(newCollectionNames[i])
+//@   requires forall k string :: k in mapCollectionNames ==> oneDot(k)
+//@   requires forall i int :: 0 <= i && i < len(e.collectionNames.data[uKey]) ==> oneDot(e.collectionNames.data[uKey][i])
+//@   ensures [a-rejected-request-leaves-the-bookkeeping-untouched] result1 != nil ==> bookkeepingUntouched()
+//@   loop 1 invariant bookkeepingUntouched() && (duplicateCollections == nil || freshRef2(duplicateCollections))
+//@   loop 2 invariant bookkeepingUntouched() && (duplicateCollections == nil || freshRef2(duplicateCollections))
+//@   loop 3 invariant bookkeepingUntouched()
+//@   loop 4 invariant bookkeepingUntouched()
+//@   loop 5 invariant bookkeepingUntouched() && (excludeCollectionNames == nil || freshRef2(excludeCollectionNames))
+//@   loop 6 invariant bookkeepingUntouched() && (excludeCollectionNames == nil || freshRef2(excludeCollectionNames))
+//@   loop 7 invariant true
